@@ -600,6 +600,42 @@ def wire_problems(sc, mt, wire):
 CANON_INT = re.compile(rb'-?(0|[1-9]\d*)')
 
 
+def _date_ok(d):
+    y, m, dd = int(d[:4]), int(d[4:6]), int(d[6:8])
+    if not (1970 <= y <= 2099 and 1 <= m <= 12 and dd >= 1):
+        return False
+    ml = (31, 29 if y % 4 == 0 and (y % 100 != 0 or y % 400 == 0) else 28, 31, 30, 31, 30, 31, 31, 30, 31, 30, 31)[m - 1]
+    return dd <= ml
+
+
+def _time_ok(t):
+    return int(t[0:2]) <= 23 and int(t[3:5]) <= 59 and int(t[6:8]) <= 59
+
+
+def in_domain(k, val):
+    """is the text a literal of the field's type whose value the typed field class can hold (so that the decoded value equals the text)?
+    everything else belongs to the finding class value-text-not-validated when it is accepted"""
+    if k in ('int', 'length'):
+        return bool(CANON_INT.fullmatch(val)) and val != b'-0' and -2**31 <= int(val) <= 2**31 - 1
+    if k == 'char':
+        return len(val) == 1
+    if k == 'bool':
+        return val in (b'Y', b'N')
+    if k == 'float':
+        return bool(re.fullmatch(rb'-?\d+(\.\d+)?', val)) and len(val.replace(b'-', b'').replace(b'.', b'')) <= 15
+    if k == 'timestamp':
+        return bool(re.fullmatch(rb'\d{8}-\d\d:\d\d:\d\d(\.\d{3})?', val)) and _date_ok(val[:8]) and _time_ok(val[9:17])
+    if k == 'timeOnly':
+        return bool(re.fullmatch(rb'\d\d:\d\d:\d\d(\.\d{3})?', val)) and _time_ok(val[:8])
+    if k == 'dateOnly':
+        return bool(re.fullmatch(rb'\d{8}', val)) and _date_ok(val)
+    if k == 'monthYear':
+        if not re.fullmatch(rb'\d{6}(\d\d)?', val):
+            return False
+        return _date_ok(val if len(val) == 8 else val + b'01')
+    return True
+
+
 def conformance(sc, raw):
     """returns (problems, tokens, classes): problems = why the byte string is not a schema-conforming message (empty = conforming);
     tokens = [(section, path, tag, value)] in wire order when tokenisable; classes = finding classes this input falls into"""
@@ -683,11 +719,7 @@ def conformance(sc, raw):
             prev = (tag, val)
             toks.append((sec, path, tag, val))
             k = kind(sc, tr[1])
-            if (k in ('int', 'length') and not CANON_INT.fullmatch(val)) or (k == 'char' and len(val) != 1) or (k == 'bool' and val not in (b'Y', b'N')) \
-                    or (k == 'float' and not re.fullmatch(rb'-?\d+(\.\d+)?', val)) \
-                    or (k == 'timestamp' and not re.fullmatch(rb'\d{8}-\d\d:\d\d:\d\d(\.\d{3})?', val)) \
-                    or (k == 'timeOnly' and not re.fullmatch(rb'\d\d:\d\d:\d\d(\.\d{3})?', val)) \
-                    or (k == 'dateOnly' and not re.fullmatch(rb'\d{8}', val)) or (k == 'monthYear' and not re.fullmatch(rb'\d{6}(\d\d)?', val)):
+            if not in_domain(k, val):
                 classes.add('value-text-not-validated')
             if b'\x00' in val:
                 classes.add('nul-in-value')
